@@ -54,7 +54,7 @@ class SThread:
 class Sim:
     """One simulated execution."""
 
-    def __init__(self, seed=0, switch_prob=0.3, max_events=400000, choices=None, delay_prob=0.0, max_delay_us=0):
+    def __init__(self, seed=0, switch_prob=0.3, max_events=120000, choices=None, delay_prob=0.0, max_delay_us=0):
         self.rng = random.Random(seed)
         self.switch_prob = switch_prob
         self.now = 0
@@ -75,9 +75,19 @@ class Sim:
         self.n_switch = 0
 
     # ------------------------------------------------------------------ events
+    def abort(self, reason):
+        """give up on this execution: unwind every simulated thread"""
+        if self.failure is None:
+            self.failure = Deadlock(reason)
+        self.aborting = True
+        for t in self.threads:
+            if t.state in ("blocked", "runnable"):
+                t.state = "runnable"
+        raise SimAbort()
+
     def ev(self, kind, **kw):
-        if len(self.events) > self.max_events:
-            raise Deadlock("event budget exhausted (livelock?)")
+        if len(self.events) > self.max_events and not self.aborting:
+            self.abort("event budget exhausted (livelock at virtual time %d us?)" % self.now)
         e = {"t": self.now, "th": self.cur.name if self.cur else "-", "k": kind}
         e.update(kw)
         self.events.append(e)
@@ -138,6 +148,15 @@ class Sim:
 
     def _dispatch(self):
         """called by the current thread when it stops running (blocked, yielded or done): hand the baton on"""
+        if self.aborting:
+            live = [t for t in self.threads if t.state != "done"]
+            if not live:
+                self.cur = None
+                self.driver_lock.release()
+                return None
+            for t in live:
+                t.state = "runnable"
+            return live[0]
         while True:
             # timers due now
             while self.timers and self.timers[0][0] <= self.now:
@@ -255,7 +274,7 @@ class Sim:
         return th
 
     # ------------------------------------------------------------------ driver
-    def run(self, main_fn, timeout_s=120):
+    def run(self, main_fn, timeout_s=30):
         """run main_fn as thread 'main' under the simulation until every thread is done"""
         with Patched(self):
             self.spawn(main_fn, "main")
@@ -302,9 +321,10 @@ class SimQueue:
                 raise _real_queue.Empty
             dl = None if timeout is None else s.now + usec(timeout)
             s.ev("GetWait", deadline=dl)
-            if not s.block(lambda: bool(self.items), dl):
-                s.ev("DeqEmpty", nowait=False)
-                raise _real_queue.Empty
+            while not self.items:
+                if not s.block(lambda: bool(self.items), dl) and not self.items:
+                    s.ev("DeqEmpty", nowait=False)
+                    raise _real_queue.Empty
         item = self.items.pop(0)
         s.ev("Deq", item=_item_repr(item), marker=_marker(item), qlen=len(self.items), nowait=not block)
         return item
@@ -373,7 +393,8 @@ class SimLock:
             if not blocking:
                 return False
             s.ev("LockWait")
-            s.block(lambda: self.owner is None, None)
+            while self.owner is not None:
+                s.block(lambda: self.owner is None, None)
         self.owner = s.cur
         s.ev("LockAcq")
         return True
@@ -832,6 +853,16 @@ class Patched:
 
         self._set(ynca.connection.YncaConnection, "__init__", conn_init2)
 
+        def conn_setattr(self_, name, value):
+            if name == "_closed" and value is True and sim.cur is not None and not sim.aborting:
+                sim.yield_point()
+                object.__setattr__(self_, name, value)
+                sim.ev("SetClosed")
+                return
+            object.__setattr__(self_, name, value)
+
+        self._set(ynca.connection.YncaConnection, "__setattr__", conn_setattr)
+
         SB = ynca.subunit.SubunitBase
 
         def sb_setattr(self_, name, value):
@@ -857,6 +888,18 @@ class Patched:
 
         self._set(SB, "__setattr__", sb_setattr)
         self._set(SB, "__getattribute__", sb_getattribute)
+
+        RT = serial.threaded.ReaderThread
+
+        def rt_setattr(self_, name, value):
+            if name == "alive" and sim.cur is not None and not sim.aborting:
+                sim.yield_point()
+                object.__setattr__(self_, name, value)
+                sim.ev("SetAlive", val=bool(value))
+                return
+            object.__setattr__(self_, name, value)
+
+        self._set(RT, "__setattr__", rt_setattr)
         return self
 
     def __exit__(self, *a):
